@@ -279,8 +279,17 @@ def rule_hash_covers_key(ctx, rep, config="c-lib"):
             c = g.inst(t.ops[0]) if (t is not None and len(t.ops) == 3) else None
             if c is None or c.op != "icmp":
                 continue
-            if const_int(c.ops[1]) is not None and g.inst(strip_int_casts(g, c.ops[0])) is not None and g.inst(strip_int_casts(g, c.ops[0])).op == "phi" \
-                    and g.inst(strip_int_casts(g, c.ops[0])).ty.startswith("i") and g.inst(strip_int_casts(g, c.ops[0])).ty != "i8":
+            ph = g.inst(strip_int_casts(g, c.ops[0]))
+            if const_int(c.ops[1]) is None or ph is None or ph.op != "phi" or not ph.ty.startswith("i") or ph.ty == "i8":
+                continue
+            inits = [v for (v, pb) in ph.d["incoming"] if pb not in L["body"]]
+            steps = [v for (v, pb) in ph.d["incoming"] if pb in L["body"]]
+            if len(inits) != 1 or len(steps) != 1:
+                continue
+            st = expr.lin(g, steps[0], 0, 0)
+            down = st.c < 0
+            # counting up to a constant, or down from a constant: a fixed number of elements
+            if (not down) or const_int(inits[0]) is not None:
                 badl = (g, c)
         if badl:
             rep.violation("R27-hash", key, "the loop of %s that hashes the key stops at the constant %d: elements that agree on that prefix collide" % (
